@@ -135,7 +135,10 @@ def run_trees(cases, steps=2, per_tree=1500, use_cache=False, pool=None):
     """cases: list of (cfg_idx, code, label). Yields TreeResult per tree (cases grouped by configuration)."""
     by_cfg = {}
     for ci, code, label in cases:
-        by_cfg.setdefault(ci, []).append((code, label))
+        # files that already carry the largest ID exhaust the range for their whole tree (the run fails by design, C01):
+        # they get trees of their own so that the other cases are still edited and judged
+        has_max = ("4294967295" in code) if isinstance(code, str) else (b"4294967295" in code)
+        by_cfg.setdefault(ci + (1000 if has_max else 0), []).append((code, label))
     base = scratch_dir("dt")
     jobs = []
     for ci, cs in sorted(by_cfg.items()):
@@ -147,12 +150,12 @@ def run_trees(cases, steps=2, per_tree=1500, use_cache=False, pool=None):
             if len(cur) >= per_tree or cur_bytes >= 400_000:
                 w = os.path.join(base, "t%d_%d" % (ci, k))
                 os.makedirs(w)
-                jobs.append((ci, cur, w, steps, use_cache))
+                jobs.append((ci % 1000, cur, w, steps, use_cache))
                 cur, cur_bytes, k = [], 0, k + 1
         if cur:
             w = os.path.join(base, "t%d_%d" % (ci, k))
             os.makedirs(w)
-            jobs.append((ci, cur, w, steps, use_cache))
+            jobs.append((ci % 1000, cur, w, steps, use_cache))
     jobs.sort(key=lambda j: -sum(len(c[0]) for c in j[1]))
     own = pool is None
     if own:
